@@ -48,12 +48,13 @@ Inductive case :=
    data file, receiver's skipped count, receiver's LastVerifiedChunk *)
 | X (id : Z) (fid : list Z) (size cs alg : Z) (file primary fallback : option (list Z))
     (src : list Z) (tail : Z) (vnone : bool)
-    (sent : list Z) (resent : option Z) (final : list Z) (skipped : Z).
+    (sent : list Z) (resent : option Z) (final : list Z) (skipped : Z)
+    (written : list Z).   (* chunk indices the receiver wrote, in the order it wrote them *)
 
 Definition case_id (c : case) : Z :=
   match c with
   | L id _ _ => id | F id _ _ => id | LC id _ _ _ _ _ _ => id
-  | X id _ _ _ _ _ _ _ _ _ _ _ _ _ _ => id
+  | X id _ _ _ _ _ _ _ _ _ _ _ _ _ _ _ => id
   end.
 
 Definition check (c : case) : bool :=
@@ -75,12 +76,22 @@ Definition check (c : case) : bool :=
     | Err, None => true
     | _, _ => false
     end
-  | X _ fid size cs alg file p f src tail vnone sent resent final skipped =>
-    match resume_outcome crc32c (mkRq fid size cs alg) (mkDisk file p f) src tail vnone with
-    | Ret o =>
-      bytes_eqb (o_sent o) sent && optz_eqb (o_resent o) resent && bytes_eqb (o_file o) final &&
-      (o_total o - o_remaining o =? skipped)
-    | _ => false
+  | X _ fid size cs alg file p f src tail vnone sent resent final skipped written =>
+    (* what the sender sends and what the receiver skips are the model's; the final
+       file is the positional-write model applied to the frames the receiver actually
+       WROTE (a forced-tail frame that arrives after the last missing chunk finalised
+       the file is dropped - [o_file] is the file when none is), every written frame is
+       one the model sends, and when none was dropped the file is [o_file] *)
+    match recv_begin crc32c (mkRq fid size cs alg) (mkDisk file p f),
+          resume_outcome crc32c (mkRq fid size cs alg) (mkDisk file p f) src tail vnone with
+    | Ret br, Ret o =>
+      let all := o_sent o ++ match o_resent o with Some c => [c] | None => [] end in
+      bytes_eqb (o_sent o) sent && optz_eqb (o_resent o) resent &&
+      (o_total o - o_remaining o =? skipped) &&
+      forallb (fun i => existsb (Z.eqb i) all) written &&
+      bytes_eqb (put_chunks cs src written (br_file br)) final &&
+      (if forallb (fun i => existsb (Z.eqb i) written) all then bytes_eqb (o_file o) final else true)
+    | _, _ => false
     end
   end.
 
